@@ -86,4 +86,12 @@ Eval(op, a, b, p) ==
       [] op = "is_timelike" -> BoolR(IsTimelike(a, p[1]))
       [] op = "is_spacelike" -> BoolR(IsSpacelike(a, p[1]))
       [] op = "is_lightlike" -> BoolR(IsLightlike(a, p[1]))
+      \* operand given by its stored proper time: a = <<x, y, z, tau>>
+      [] op = "rawtau_tau" -> NumR(a[4])
+      [] op = "rawtau_tau2" -> NumR(RawTau2(a))
+      [] op = "rawtau_t2" -> NumR(RawT2(a))
+      [] op = "rawtau_t" -> NumR(RawT(a))
+      [] op = "rawtau_is_timelike" -> BoolR(RawIsTimelike(a, p[1]))
+      [] op = "rawtau_is_spacelike" -> BoolR(RawIsSpacelike(a, p[1]))
+      [] op = "rawtau_is_lightlike" -> BoolR(RawIsLightlike(a, p[1]))
 =============================================================================
